@@ -217,8 +217,9 @@ def run(ctx):
                                            grids={g: sum(1 for c in cases if c.get("grid") == g) for g in ("uniform", "quadratic", "geometric", "random", "huge", "jitter", "tiny")},
                                            schedules=sum(1 for c in cases if "sched" in c)))
     ctx.samples += [rescorr.describe(c) for c in cases[:3]]
-    ctx.validated_only.append("that BiCGSTAB actually converges on every admissible input (third-party iterative solver); "
-                              "the theorem covers what is accepted when it does, the probe what happens when it does not")
+    ctx.validated_only.append("the accuracy of scipy's spsolve on the tridiagonal step system and of the code's evaluation of norm(A @ x - b) "
+                              "(nothing is assumed about BiCGSTAB any more: the theorems cover what the loop accepts whatever the solver returns, "
+                              "the probe injects flagged and drifted iterates, and the true residual of every stored level is recomputed)")
 
 
 def replay(payload):
